@@ -19,6 +19,7 @@ inductive Op where
   | setPayloadBlock (num flags : Nat) (d : Bytes)   -- a payload block carrying any requested number
   | setCrc (t : Nat)
   | upd (node : Eid) (rt now : Nat)
+  | tocbor                                         -- `to_cbor(&mut self)`: the object itself is encoded (CRC values recomputed)
   deriving Repr
 
 /-- a payload block as a caller may hand it in: any block number (e.g. 0 from `CanonicalBlock::new`) -/
@@ -30,6 +31,7 @@ def step (b : Bundle) : Op → Bundle
   | .setPayloadBlock n f d => b.setPayloadBlock (payloadBlockReq n f d)
   | .setCrc t => b.setCrc t
   | .upd node rt now => (b.updateExtensions node rt now).bundle
+  | .tocbor => (b.toCbor).1
 
 def run (b : Bundle) (ops : List Op) : Bundle := ops.foldl step b
 
@@ -44,6 +46,7 @@ def OpOk (p : Primary) : Op → Prop
   | .setPayloadBlock _ f d => f < 256 ∧ d.length < U64 ∧ C07.localOk p (newPayloadBlock f d)
   | .setCrc t => t ≤ 2
   | .upd node _ _ => node.wf = true ∧ eidOk node = true ∧ (encEid node).length < U64
+  | .tocbor => True
 
 /-- invariant on the (type, number) list -/
 def SInv (s : List (Nat × Nat)) : Prop :=
@@ -330,6 +333,19 @@ theorem inv_setCrc (b : Bundle) (h : Inv b) (t : Nat) (ht : t ≤ 2) : Inv (b.se
     simp only [Canon.wf, Bool.and_eq_true] at this ⊢
     exact ⟨⟨⟨this.1.1.1, hk⟩, this.1.2⟩, this.2⟩
 
+/-- encoding the object itself only rewrites stored CRC values: the invariant survives -/
+theorem inv_tocbor (b : Bundle) (h : Inv b) : Inv (b.toCbor).1 := by
+  have hsig : sig (b.toCbor).1.canon = sig b.canon := by
+    simp [Bundle.toCbor, Bundle.calculateCrc, sig, List.map_map, Function.comp_def, Canon.updateCrc]
+  refine { pwf := (Primary.updateCrc_wf b.primary h.pwf).1, pval := h.pval, s := by rw [hsig]; exact h.s, blocks := ?_,
+           age := by rw [hsig]; exact h.age }
+  intro c hc
+  simp only [Bundle.toCbor, Bundle.calculateCrc, List.mem_map] at hc
+  obtain ⟨c0, hc0, rfl⟩ := hc
+  have h0 := h.blocks c0 hc0
+  exact blockOk_of_same _ c0 _ ⟨h0.1, h0.2⟩ rfl (Canon.updateCrc_wf c0 h0.1).1
+    (by have := extOk_of_blockOk h0; simpa [Canon.extOk, Canon.updateCrc] using this)
+
 theorem desc_of_inv (b : Bundle) (h : Inv b) : (b.canon.map (·.num)).Pairwise (· > ·) := by
   have : (sig b.canon).map (·.2) = b.canon.map (·.num) := by simp [sig]
   rw [← this]; exact h.s.1
@@ -613,6 +629,17 @@ theorem payload_setCrc (b : Bundle) (t : Nat) :
   rw [this]
   cases List.find? (fun c : Canon => c.btype == PAYLOAD_BLOCK && c.extOk) b.canon <;> rfl
 
+theorem payload_tocbor (b : Bundle) :
+    (b.toCbor).1.payload = b.payload ∧ (b.toCbor).1.canon.length = b.canon.length := by
+  refine ⟨?_, by simp [Bundle.toCbor, Bundle.calculateCrc]⟩
+  unfold Bundle.payload Bundle.blockByType Bundle.toCbor Bundle.calculateCrc
+  simp only [List.find?_map]
+  have : ((fun c : Canon => c.btype == PAYLOAD_BLOCK && c.extOk) ∘ Canon.updateCrc)
+      = (fun c : Canon => c.btype == PAYLOAD_BLOCK && c.extOk) := by
+    funext c; rfl
+  rw [this]
+  cases List.find? (fun c : Canon => c.btype == PAYLOAD_BLOCK && c.extOk) b.canon <;> rfl
+
 theorem payloadQ_other (q : Canon → Bool) (f : Canon → Canon) (t : Nat) (ht : t ≠ 1)
     (hq : ∀ c, q c = true → c.btype = t) (hf : ∀ c, (f c).btype = c.btype) (l : List Canon) :
     (updFirst q f l).find? (fun c => c.btype == PAYLOAD_BLOCK && c.extOk)
@@ -668,6 +695,7 @@ theorem step_primary (b : Bundle) (op : Op) : ∃ x, (step b op).primary = { b.p
     refine ⟨b.primary.crc, ?_⟩
     simp only [step, Bundle.updateExtensions]
     exact ite_prop (fun u : UpdOut => u.bundle.primary = _) _ _ _ rfl (ite_prop (fun u : UpdOut => u.bundle.primary = _) _ _ _ rfl rfl)
+  | tocbor => exact ⟨b.primary.calcCrc, rfl⟩
 
 theorem opOk_crc (p : Primary) (x : CrcVal) (op : Op) : OpOk { p with crc := x } op ↔ OpOk p op := by
   cases op <;> exact Iff.rfl
@@ -694,6 +722,8 @@ theorem inv_step (b : Bundle) (h : Inv b) (op : Op) (hok : OpOk b.primary op)
   | upd node rt now =>
     obtain ⟨k1, k2⟩ := payload_upd b node rt now
     exact ⟨inv_upd b h node rt now hok.1 hok.2.1 hok.2.2, k1, by show (b.updateExtensions node rt now).bundle.canon.length ≤ _; omega⟩
+  | tocbor =>
+    exact ⟨inv_tocbor b h, (payload_tocbor b).1, by show (b.toCbor).1.canon.length ≤ _; rw [(payload_tocbor b).2]; omega⟩
 
 def lastSet (cur : Option Bytes) (ops : List Op) : Option Bytes := ops.foldl payloadAfter cur
 
